@@ -14,7 +14,7 @@ for k in ks:
     src = f"{OUT}/{k}"
     if not os.path.exists(f"{src}/patch.diff"):
         print(pid, k, "no patch"); continue
-    sh(f"git -C {WT} checkout -q -- . && git -C {WT} clean -fdq")
+    sh(f"git -C {WT} checkout -q -- . && git -C {WT} clean -fdq && git -C {WT} checkout -q --detach main")
     rc0, o0 = sh(f"cd {WT} && PYTHONPATH={WT} timeout 600 /venv/bin/python {src}/demo.py")
     rca, oa = sh(f"git -C {WT} apply {src}/patch.diff")
     if rca != 0:
